@@ -251,7 +251,22 @@ def run(ctx):
            I.getattr(f, "density"), nd / want, fsite(ctx, "formulas.Formula.natural_density.setter"))
         eq(ctx, "R1", f"natural_density reads back what was set [{kind}]", I.getattr(f, "natural_density"), nd,
            fsite(ctx, "formulas.Formula.natural_density"))
-    ctx.floor("R1", 24)
+    # the ratio follows the composition: after an in-place extension (f += g) by something of another isotope content, the
+    # natural density read or set is that of the extended formula, whatever was read or set before
+    a_i, a_e = A["isotope"], A["element"]
+    f = I.call(fm, [{a_i: q[0], O: q[1]}], {"density": d})
+    I.getattr(f, "natural_density")                       # (a reading before the extension)
+    I.call(I.getattr(f, "natural_mass_ratio"), [], {})
+    g_ = I.call(fm, [{a_e: q[2]}], {})
+    f = I.call(I.getattr(f, "__iadd__"), [g_], {})
+    want2 = (q[0] * nat_mass("isotope") + q[1] * mO + q[2] * nat_mass("element")) / (q[0] * act_mass("isotope") + q[1] * mO + q[2] * act_mass("element"))
+    eq(ctx, "R1", "natural mass ratio after f += g is that of the extended formula", I.call(I.getattr(f, "natural_mass_ratio"), [], {}), want2, s_ratio)
+    eq(ctx, "R1", "natural_density after f += g = density * ratio of the extended formula", I.getattr(f, "natural_density"), d * want2,
+       fsite(ctx, "formulas.Formula.natural_density"))
+    I.setattr(f, "natural_density", nd)
+    eq(ctx, "R1", "setting natural_density after f += g uses the ratio of the extended formula", I.getattr(f, "density"), nd / want2,
+       fsite(ctx, "formulas.Formula.natural_density.setter"))
+    ctx.floor("R1", 27)
 
     # ---- R2 the routes agree ----------------------------------------------------
     a = A["ion_isotope"]
@@ -368,8 +383,16 @@ def run(ctx):
        I.call(I.getattr(f, "volume"), [pf], {}), sphere / pf * sp.Rational(1, 10 ** 24), s_vol)
     eq(ctx, "R4", "volume(packing_factor=pf) keyword form", I.call(I.getattr(f, "volume"), [], {"packing_factor": pf}),
        sphere / pf * sp.Rational(1, 10 ** 24), s_vol)
-    F = folder(ctx)
-    PF = F.const("formulas", "PACKING_FACTORS")
+    try:
+        PF = folder(ctx).const("formulas", "PACKING_FACTORS")
+    except AnalysisError:
+        # the table is computed by package code rather than written as literals: take it from the interpreter
+        PF = {}
+        for k_, v_ in I.global_name("formulas", "PACKING_FACTORS").items():
+            e_ = sp.sympify(v_)
+            if not e_.is_number:
+                raise AnalysisError(f"PACKING_FACTORS[{k_!r}] is not a number: {v_}")
+            PF[k_] = float(e_.evalf(30))
     exact = {"cubic": sp.pi / 6, "bcc": sp.pi * sp.sqrt(3) / 8, "hcp": sp.pi / sp.sqrt(18),
              "fcc": sp.pi / sp.sqrt(18), "diamond": sp.pi * sp.sqrt(3) / 16}
     doc = ast.get_docstring(ctx.src.func("formulas.Formula.volume").node) or ""
